@@ -5,9 +5,75 @@ from ..common import parse_args
 from . import chcheck
 
 
+def insertion_obligation(rep):
+    """Insertion point in the ATLAS job options: the Python code jinja2 generates for the real ATestRun_eljob.py
+    (Environment options and context captured from a real executor run) as a z3 string term over symbolic script
+    lines must equal the template source with the lines verbatim, between job creation and algorithm creation."""
+    import z3
+    from ..strk import jinja_smt as js
+    from pathlib import Path
+    tag = "atlas:ATestRun_eljob.py:job_option_additions"
+    rep.obligations += 1
+    try:
+        cap = js.capture("atlas", [{"metadata_type": "add_job_script", "name": "b0", "script": ["S3NT1NEL_job_0", "S3NT1NEL_job_1"], "depends_on": []}])
+        ctx = cap["contexts"]["ATestRun_eljob.py"]
+        if ctx.get("job_option_additions") != ["S3NT1NEL_job_0", "S3NT1NEL_job_1"]:
+            d = chcheck.REPLAYS / "C15" / "insertion"
+            d.mkdir(parents=True, exist_ok=True)
+            (d / "finding.json").write_text(str(ctx.get("job_option_additions")))
+            rep.violation(f"{tag}: script lines do not reach the template variable: {ctx.get('job_option_additions')}", d)
+            return
+        src = (Path(cap["template_dir"]) / "ATestRun_eljob.py").read_text()
+        gen = js.generated_structure(src, cap["env_kwargs"])
+        exp = js.source_structure(src)
+        idx = next(i for i, p in enumerate(exp) if p[0] == "loop" and p[1] == "job_option_additions")
+        pre = "".join(p[1] for p in exp[:idx] if p[0] == "const")
+        post = "".join(p[1] for p in exp[idx + 1:] if p[0] == "const")
+        if not ("job = ROOT.EL.Job()" in pre and "createAlgorithm" in post):
+            d = chcheck.REPLAYS / "C15" / "insertion"
+            d.mkdir(parents=True, exist_ok=True)
+            (d / "finding.json").write_text("region")
+            rep.violation(f"{tag}: the script is not inserted between job creation and algorithm creation", d)
+            return
+        L = [z3.String(f"l{i}") for i in range(3)]
+        zctx = {"job_option_additions": L}
+        side, side2 = js.Side(), js.Side()
+        s = z3.Solver()
+        s.set("timeout", 30000)
+        for ln in L:
+            s.add(z3.Length(ln) <= 4)
+        got, want = js.render_term(gen, zctx, side), js.render_term(exp, zctx, side2)
+        s.add(*side.cons)
+        s.add(got != want)
+        r = s.check()
+        if r == z3.unsat:
+            env = js.jinja2.Environment(**cap["env_kwargs"])
+            for sp in (["a = '{{x}}'", "b = '{% y %}' # <&>"], ["", "x"]):
+                if env.from_string(src).render({"job_option_additions": sp}) != js.render_concrete(gen, {"job_option_additions": sp}):
+                    rep.harness(f"{tag}: translation of jinja2's generated code disagrees with the real render")
+                    return
+            rep.discharged += 1
+        elif r == z3.sat:
+            m = s.model()
+            vals = [m.eval(x, model_completion=True).as_string() for x in L]
+            env = js.jinja2.Environment(**cap["env_kwargs"])
+            real = env.from_string(src).render({"job_option_additions": vals})
+            if real != js.render_concrete(exp, {"job_option_additions": vals}):
+                d = chcheck.REPLAYS / "C15" / "insertion"
+                d.mkdir(parents=True, exist_ok=True)
+                (d / "finding.json").write_text(str(vals))
+                rep.violation(f"{tag}: script lines {vals!r} are not inserted verbatim, once, in order", d)
+            else:
+                rep.inconc(tag, "solver model does not reproduce with the real jinja2")
+        else:
+            rep.inconc(tag, "solver unknown")
+    except js.Inconclusive as e:
+        rep.inconc(tag, f"template outside the translator's subset: {e}")
+
+
 def main():
     a = parse_args("C15")
-    mods = [("h_c15", 60, None), ("h_c15_2", 120, None), ("h_c15_ins", 60, None)]
+    mods = [("h_c15", 60, None), ("h_c15_2", 120, None)]
     if a.tier == "thorough":
         mods.append(("h_c15_3", 200, None))
     rep, cov, assumptions = chcheck.run(
@@ -18,6 +84,7 @@ def main():
                     "(one never sent) and two script variants per name, against an independent reference (first-occurrence map, union of "
                     "dependencies, Kahn's algorithm): ValueError exactly on conflict/missing/cycle, otherwise each distinct block once, contiguous, "
                     "in order, after its dependencies. B=2 quick, B=3 thorough; space partitioned into conditions with <=3 symbolic integers")
+    insertion_obligation(rep)
     cov["bounds"] = {"blocks": 2 if a.tier == "quick" else 3, "deps_per_block": 2}
     sys.exit(rep.finish(cov, assumptions + ["more than 3 blocks and random sampling beyond the bound are not done (outside the claim)"]))
 
